@@ -28,6 +28,7 @@ def run(ctx) -> None:
     ctx.guard("C10.mask-range", mask_range)
     ctx.guard("C10.tip-table", tip_table)
     ctx.guard("C10.wash-table", wash_table)
+    ctx.guard("C10.evo-tip-table", evo_tip_table)
     ctx.guard("C10.aggregate", aggregate_evo)
     ctx.guard("C10.aggregate", evo_member_conversion)
     ctx.guard("C10.any", any_rules)
@@ -47,6 +48,8 @@ def run(ctx) -> None:
     ctx.reuse("C10.slot-order", c13.one_to_one)
     # aspirate and dispense take the tips in the same argument position and build the mask the same way
     ctx.reuse("C10.slot-order", c13.siblings)
+    # the tips the caller gives to EvoWorklist.evo_wash are the tips the command is built from
+    ctx.reuse("C10.aggregate", c13.wash_passthrough)
     # the record emitters hand the caller's tip to the validator as it was given (no default substituted for falsy values)
     from . import c09
 
@@ -395,6 +398,7 @@ def tip_table(ctx) -> None:
     cases += [("0", 0, RAISE), ("9", 9, RAISE), ("-1", -1, RAISE), ("2.0", 2.0, RAISE), ("None", None, RAISE),
               ("[1]", [1], 1), ("[8]", [8], 128), ("[Tip.T3]", [T("T3")], 4), ("(2,)", (2,), 2), ("[1, 2]", [1, 2], 3), ("(1, 4)", (1, 4), 9), ("[Tip.T1, 2]", [T("T1"), 2], 3),
               ("[1, 1]", [1, 1], 1), ("[Tip.T3, 3]", [T("T3"), 3], 4), ("[Tip.T3, 4]", [T("T3"), 4], 12), ("[1, 2, 3, 4, 5, 6, 7, 8]", list(range(1, 9)), 255),
+              ("[1, 2, 3, 4, 5, 6, 7, 8, 1]", list(range(1, 9)) + [1], 255), ("[1..8] + [Tip.T1..Tip.T8]", list(range(1, 9)) + [T(f"T{i}") for i in range(1, 9)], 255),
               ("[Tip.Any]", [T("Any")], RAISE), ("[1, Tip.Any]", [1, T("Any")], RAISE), ("[0]", [0], RAISE), ("[9]", [9], RAISE), ("[2.0]", [2.0], RAISE), ("[[1, 2]]", [[1, 2]], RAISE),
               ("[None]", [None], RAISE)]
     bad = None
@@ -476,6 +480,60 @@ def wash_table(ctx) -> None:
         ctx.rep.inconclusive(rule, c, f"the wash command could not be evaluated for tips={unknown} (construct outside the interpreter's fragment)", where=f.where())
     else:
         ctx.rep.holds(rule, c, f"the wash mask / the rejection is as prescribed for all {n} tip lists of the evaluation table (bounded argument)", where=f.where())
+
+
+def evo_tip_table(ctx) -> None:
+    """The tips that the validator of B;Aspirate / B;Dispense hands to the formatter, for a table of tip lists:
+    prepare_evo_aspirate_dispense_parameters is interpreted (rules/init_model.py; nothing of the repository is executed) with
+    otherwise valid parameters. Numbers become their Tip members, Tip members stay, and Tip.Any, 0, 9, non-ints and
+    non-ascending or repeated selections are refused (the i-th volume belongs to the i-th tip)."""
+    from . import init_model as IM
+
+    rule = "C10.evo-tip-table"
+    g = ctx.prog.func("prepare_evo_aspirate_dispense_parameters")
+    if g is None:
+        raise AnalysisInconclusive(rule, "prepare_evo_aspirate_dispense_parameters", "validator not found")
+    members = _tip_table(ctx, rule)
+    enums = {"Tip": dict(members)}
+
+    def T(name):
+        return IM.EnumVal(members[name], "Tip", name)
+
+    RAISE = "raises"
+    W = ["A01", "B01", "C01", "D01", "E01", "F01", "G01", "H01"]
+    cases = [("[1]", [1], ["T1"]), ("[8]", [8], ["T8"]), ("[Tip.T3]", [T("T3")], ["T3"]), ("[1, 2]", [1, 2], ["T1", "T2"]), ("[2, Tip.T5]", [2, T("T5")], ["T2", "T5"]),
+             ("[Tip.T1, 8]", [T("T1"), 8], ["T1", "T8"]), ("[1, 2, 3, 4, 5, 6, 7, 8]", list(range(1, 9)), [f"T{i}" for i in range(1, 9)]),
+             ("[Tip.Any]", [T("Any")], RAISE), ("[Tip.Any, 1]", [T("Any"), 1], RAISE), ("[1, Tip.Any]", [1, T("Any")], RAISE), ("[0]", [0], RAISE), ("[9]", [9], RAISE), ("[2.0]", [2.0], RAISE),
+             ("[2, 1]", [2, 1], RAISE), ("[1, 1]", [1, 1], RAISE), ("[Tip.T3, 3]", [T("T3"), 3], RAISE), ("None", None, RAISE)]
+    bad = unknown = None
+    n = 0
+    for text, tips, want in cases:
+        k = len(tips) if isinstance(tips, list) else 1
+        params = dict(wells=W[:k], labware_position=(30, 2), volume=10.0, liquid_class="Water", tips=tips, arm=0, max_volume=950)
+        if not set(params) <= set(g.params):
+            unknown = unknown or "<signature changed>"
+            break
+        kind, val = IM.run_function(g, params, ctx.prog, enums)
+        n += 1
+        if kind == "raise":
+            got = RAISE
+        elif kind == "return" and isinstance(val, (tuple, list)) and len(val) == 5 and isinstance(val[4], list) and all(isinstance(x, IM.EnumVal) for x in val[4]):
+            got = [x.member for x in val[4]]
+        else:
+            unknown = unknown or text
+            continue
+        if got != want and bad is None:
+            bad = (text, want, got)
+    ctx.rep.touch(g)
+    c = f"{g.qualname}/tips"
+    if bad is not None:
+        text, want, got = bad
+        ctx.rep.refuted(rule, c, f"for tips={text} the validator {'raises' if got == RAISE else f'hands on the tips {got}'}; the property requires "
+                        f"{'a rejection (ValueError)' if want == RAISE else f'the tips {want}'}", where=g.where())
+    elif unknown is not None:
+        ctx.rep.inconclusive(rule, c, f"the validator could not be evaluated for tips={unknown} (construct outside the interpreter's fragment)", where=g.where())
+    else:
+        ctx.rep.holds(rule, c, f"the converted tips / the rejection are as prescribed for all {n} tip lists of the evaluation table (bounded argument)", where=g.where())
 
 
 def mask_range(ctx) -> None:
